@@ -1014,3 +1014,72 @@ pub mod monitor {
         x.log2()
     }
 }
+
+// ------------------------------------------------------------------------------------------
+// H7: adversarial reduction environment for the AVX2 field ("saturation tape")
+// ------------------------------------------------------------------------------------------
+
+/// While a tape is installed on the current thread, every *reducing* kernel of the AVX2 field
+/// (`reduce`, and `reduce64` at the end of `mul`, `square_and_negate_D` and multiplication by
+/// constants) returns, instead of its real result, a vector chosen by the tape: per lane
+/// either all limbs zero or all limbs at the largest value its documented post-condition
+/// allows.  Values become meaningless, magnitudes become worst-case; together with the
+/// entry monitors this checks that every formula re-establishes the headroom the next kernel
+/// documents.  With no tape installed the hooks do nothing.
+#[cfg(curve25519_dalek_backend = "simd")]
+pub mod tape {
+    extern crate std;
+    use alloc::vec::Vec;
+    use core::cell::RefCell;
+
+    pub struct State {
+        /// one answer per choice point: bit k set = lane k (A, B, C, D) saturated at the
+        /// documented maximum, clear = zero
+        pub choices: Vec<u8>,
+        pub default: u8,
+        pub pos: usize,
+    }
+
+    std::thread_local! {
+        static TAPE: RefCell<Option<State>> = const { RefCell::new(None) };
+    }
+
+    /// Install a tape on this thread.
+    pub fn install(choices: &[u8], default: u8) {
+        TAPE.with(|t| *t.borrow_mut() = Some(State { choices: choices.to_vec(), default, pos: 0 }));
+    }
+    /// Remove the tape; returns the number of choice points that were passed.
+    pub fn uninstall() -> usize {
+        TAPE.with(|t| t.borrow_mut().take().map(|s| s.pos).unwrap_or(0))
+    }
+
+    pub(crate) fn avx2_choice(_kernel: &'static str, bound: f64) -> Option<[crate::backend::vector::packed_simd::u32x8; 5]> {
+        use crate::backend::vector::packed_simd::u32x8;
+        let c = TAPE.with(|t| {
+            let mut t = t.borrow_mut();
+            match t.as_mut() {
+                None => None,
+                Some(s) => {
+                    let c = if s.pos < s.choices.len() { s.choices[s.pos] } else { s.default };
+                    s.pos += 1;
+                    Some(c)
+                }
+            }
+        })?;
+        // largest limb with limb < 2^(w + bound)
+        let max_even = {
+            let x = 67108864.0f64 * bound.exp2();
+            (if x.fract() == 0.0 { x - 1.0 } else { x.floor() }) as u32
+        };
+        let max_odd = {
+            let x = 33554432.0f64 * bound.exp2();
+            (if x.fract() == 0.0 { x - 1.0 } else { x.floor() }) as u32
+        };
+        let lane = |k: u8| c >> k & 1 == 1;
+        let e = |k: u8| if lane(k) { max_even } else { 0 };
+        let o = |k: u8| if lane(k) { max_odd } else { 0 };
+        // layout of each vector: [a_2i, b_2i, a_2i+1, b_2i+1, c_2i, d_2i, c_2i+1, d_2i+1]
+        let v = u32x8::new_const(e(0), e(1), o(0), o(1), e(2), e(3), o(2), o(3));
+        Some([v; 5])
+    }
+}
